@@ -37,6 +37,42 @@ def perturb(rng, s):
     return {x for x in out if x and len(x) <= 21}
 
 
+TIER_WORDS = [['love', 'baby', 'wolf', 'frog', 'bird', 'fish', 'tree', 'moon', 'star'],
+              ['monkey', 'dragon', 'summer', 'winter', 'silver', 'golden', 'purple', 'orange', 'yellow']]
+
+
+def tier_list(rng):
+    """a list on which the SCORER's multi-word detector is active: it only registers the alpha strings above the five
+    lowest frequency tiers of their length, so one length needs at least seven tiers for two words to be registered"""
+    words = list(rng.choice(TIER_WORDS))
+    rng.shuffle(words)
+    pws = []
+    n = rng.randint(12, 16)
+    for w in words:
+        pws += [w] * n
+        n -= rng.randint(1, 2)
+        if n < 1:
+            n = 1
+    top = words[:3]
+    cap = lambda w: rng.choice([w, w.capitalize(), w.upper(), w[:-1] + w[-1].upper()])
+    for _ in range(rng.randint(5, 9)):
+        shape = rng.choice(['ww', 'ww', 'www', 'wdw', 'wwd', 'wsw'])
+        a, b, c = (rng.choice(top) for _ in range(3))
+        if shape == 'ww':
+            pws.append(a + cap(b))
+        elif shape == 'www':
+            pws.append(cap(a) + b + cap(c))
+        elif shape == 'wdw':
+            pws.append(a + rng.choice('179') + cap(b))
+        elif shape == 'wwd':
+            pws.append(cap(a) + cap(b) + rng.choice(['1', '12']))
+        else:
+            pws.append(a + '!' + cap(b))
+    pws.append(top[0] + top[1])
+    rng.shuffle(pws)
+    return pws
+
+
 def make_scorer(d):
     from lib_scorer.pcfg_password_scorer import PCFGPasswordScorer
     from lib_scorer.grammar_io import load_grammar
@@ -82,6 +118,9 @@ def main(pid, tier, seed):
         pws = check_train.make_list(rng, pool, with_ew=(pool == 'ascii'))
         if k % 4 == 1:
             pws += ['ẞtraße', 'İstanbul', 'ǅur'] * 2       # letters whose case mapping is not invertible
+        if k % 4 == 2:
+            pool = 'tiers'
+            pws = tier_list(rng)
         res = train.train(pws, ngram=rng.choice([2, 3]), alphabet_size=100, coverage=rng.choice([0.6, 0.5, 1]))
         if not res['ok']:
             continue
@@ -113,6 +152,11 @@ def main(pid, tier, seed):
         for s in list(cands)[:120]:
             cands |= perturb(rng, s)
         cands.update(['zzzz', 'Xq7!', 'correcthorse', ' ', 'a@b.com', 'www.x.org', 'pass@word.com1'])
+        if pool == 'tiers':
+            ws = sorted({w.lower() for w in pws if w.isalpha() and len(w) <= 6})
+            for _ in range(60):
+                a, b = rng.choice(ws), rng.choice(ws)
+                cands.update([a + b, a + b.capitalize(), a.upper() + b, a + b.upper(), a.capitalize() + b.capitalize()])
         cands = sorted(x for x in cands if x)
         first = {s: sc.parse(s) for s in cands}
         order2 = list(cands)
